@@ -106,6 +106,8 @@ package packets
 //@ ensures consumed-within: err == nil ==> 0 <= n && n <= old(b.blen) - old(b.rpos)
 // verif:loop packets.Properties.Decode 1
 //@ invariant 0 <= offset && offset <= len(bt)
+// C28: every turn of the property loop consumes at least one byte (no byte stream makes a decoder spin)
+//@ decreases len(bt) - offset
 
 // ---- subscription options byte (C26, C42) ----
 // verif:func packets.Subscription.decode arith=bv
@@ -163,12 +165,14 @@ package packets
 //@ modifies fields(pk)
 // verif:loop packets.Packet.SubscribeDecode 1
 //@ invariant 0 <= offset && offset <= len(buf)
+//@ decreases len(buf) - offset
 // verif:func packets.Packet.UnsubackDecode
 //@ modifies fields(pk)
 // verif:func packets.Packet.UnsubscribeDecode
 //@ modifies fields(pk)
 // verif:loop packets.Packet.UnsubscribeDecode 1
 //@ invariant 0 <= offset && offset <= len(buf)
+//@ decreases len(buf) - offset
 // verif:func packets.Packet.AuthDecode
 //@ modifies fields(pk)
 //@ requires pk.FixedHeader.Remaining == len(buf)
